@@ -24,6 +24,7 @@ from checks import cfgcommon as CC
 from ref import cfg as R
 
 HISTORY_SKIP_UNALIGNED = True
+ALT_TOPICS = ("edges",)
 PROPERTY = "C11"
 LEVEL = "exploration"
 RULE = ("all skeletons of <=3 (thorough <=4) slots over an 8-kind slot alphabet, branch and switch targets t<=u over all "
